@@ -31,8 +31,8 @@ template<class T> T val(int v);
 template<> real_t val<real_t>(int v) { return real_t(v); }
 template<> cmplx_t val<cmplx_t>(int v) { return cmplx_t(real_t(v), real_t(-v) - 0.5); }
 template<class T> bool same(const T& a, const T& b);
-template<> bool same<real_t>(const real_t& a, const real_t& b) { return a == b; }
-template<> bool same<cmplx_t>(const cmplx_t& a, const cmplx_t& b) { return a.re == b.re && a.im == b.im; }
+template<> bool same<real_t>(const real_t& a, const real_t& b) { return std::memcmp(&a, &b, sizeof a) == 0; }   // bit-exact (-0 != +0)
+template<> bool same<cmplx_t>(const cmplx_t& a, const cmplx_t& b) { return std::memcmp(&a.re, &b.re, sizeof a.re) == 0 && std::memcmp(&a.im, &b.im, sizeof a.im) == 0; }
 
 template<class T>
 base_array<T> sentinel(int n, int base = 1000) {
@@ -185,6 +185,11 @@ void quad_case(const Q& q, Out& o) {
     std::vector<T> src;
     for (int k = 0; k < 16; ++k) src.push_back(val<T>(5000 + k));
     check_write<T>(q, m, "scalar", 1, src, true, [&](auto&& s) { s = src[0]; }, o);
+    {   // the values a fast path is most likely to special-case: zero and negative zero
+        std::vector<T> z0(1, T(0)), zn(1, T(-0.0));
+        check_write<T>(q, m, "scalar-zero", 1, z0, true, [&](auto&& s) { s = z0[0]; }, o);
+        check_write<T>(q, m, "scalar-negzero", 1, zn, true, [&](auto&& s) { s = zn[0]; }, o);
+    }
     for (int L : {cnt - 1, cnt, cnt + 1}) {
         if (L < 0) continue;
         base_array<T> rhs(L);
@@ -339,7 +344,7 @@ static void big_check(const Json& c, Out& o) {
         for (int k : m.idx) hit[size_t(k)] = 1;
         bool wthrew = false;
         try {
-            if (mode == 0) y.slice(i1, i2, st) = -7.0;
+            if (mode == 0) y.slice(i1, i2, st) = ((n + cnt) & 1) ? -7.0 : 0.0;
             else if (mode == 1) { arr_real rhs(cnt); for (int k = 0; k < cnt; ++k) rhs[k] = -1 - k; if (cnt > 0) y.slice(i1, i2, st) = rhs; }
             else { arr_real rhs(cnt + 1); y.slice(i1, i2, st) = rhs; }
         } catch (const std::exception&) { wthrew = true; }
@@ -354,7 +359,7 @@ static void big_check(const Json& c, Out& o) {
             if (!hit[size_t(i)] && y[i] != x[i]) { o.fail("slice:write-outside", fmt("n=%d slice(%d,%d,%d) mode %d: element %d outside the slice was modified", n, i1, i2, st, mode, i)); return; }
         }
         for (int k : m.idx) {
-            double w = mode == 0 ? -7.0 : double(-1 - pos);
+            double w = mode == 0 ? (((n + cnt) & 1) ? -7.0 : 0.0) : double(-1 - pos);
             if (y[k] != w) { o.fail("slice:write-wrong:array", fmt("n=%d slice(%d,%d,%d) mode %d: element %d is %g, model %g", n, i1, i2, st, mode, k, y[k], w)); return; }
             ++pos;
         }
